@@ -383,6 +383,9 @@ func runC19(c *Ctx) {
 		}
 		for _, sc := range scs {
 			sc, bound := sc, bound
+			if bound >= 3 && !strings.HasPrefix(sc.name, "S1") && !strings.HasPrefix(sc.name, "S2") && !strings.HasPrefix(sc.name, "S6") {
+				continue // 3 preemptions only for the Compile-only scenarios (those with Run have a point per VM instruction)
+			}
 			if !c.Unit(func() string { return fmt.Sprintf("%s, <= %d preemptions", sc.name, bound) }) {
 				continue
 			}
